@@ -91,7 +91,13 @@ void harness(void) {
   unsigned char mstate[3];
   const int nl = LAYERS;
   const char *ldirs[3];
+#ifdef ROOTMODE
+  /* default layer composition: ROOT_PREFIX=/R, usr_subdir "/usr", project "p" -> /R//usr/p, /R//run/p, /R//etc/p */
+  for (int a = 0; a < NPREDIRS; a++) vfs_add(PREDIRS[a], -1, VK_DIR);
+  for (int l = 0; l < LAYERS; l++) ldirs[l] = LAYERDIR[l];
+#else
   if (LAYERS == 2) { ldirs[0] = LDIR[0]; ldirs[1] = LDIR[2]; } else { ldirs[0] = LDIR[0]; ldirs[1] = LDIR[1]; ldirs[2] = LDIR[2]; }
+#endif
   /* ---- tree ---- */
   for (int l = 0; l < nl; l++) {
     lay_node[l] = vfs_add(ldirs[l], -1, VK_DIR);
@@ -168,17 +174,39 @@ void harness(void) {
 #else
   {
 #ifdef VERIF_CBMC
-    const char *opt = LAYERS == 3 ? "PARSING_DIRS=/u:/r:/e" : "PARSING_DIRS=/u:/e";   /* a literal: large stack buffers are not constant-propagated */
+    /* literals: large stack buffers are not constant-propagated */
+#ifdef ROOTMODE
+    const char *opt = "ROOT_PREFIX=/R";
+#elif defined(CONFOPT)
+    const char *opt = LAYERS == 3 ? "PARSING_DIRS=/u:/r:/e;CONFIG_DIRS=" SUFFIX_DOT ".d" : "PARSING_DIRS=/u:/e;CONFIG_DIRS=" SUFFIX_DOT ".d";
 #else
-    char opt[8192]; strcpy(opt, "PARSING_DIRS=");
+    const char *opt = LAYERS == 3 ? "PARSING_DIRS=/u:/r:/e" : "PARSING_DIRS=/u:/e";
+#endif
+#else
+    char opt[8192];
+#ifdef ROOTMODE
+    strcpy(opt, "ROOT_PREFIX="); strcat(opt, VP("/R"));
+#else
+    strcpy(opt, "PARSING_DIRS=");
     for (int l = 0; l < nl; l++) { if (l) strcat(opt, ":"); strcat(opt, VP(ldirs[l])); }
+#ifdef CONFOPT
+    strcat(opt, ";CONFIG_DIRS=" SUFFIX_DOT ".d");
+#endif
+#endif
 #endif
     e = econf_newKeyFile_with_options(&res, opt);
     ASSUME(e == ECONF_SUCCESS && res != NULL);
-#if ENTRY == 4
-    e = econf_readConfig(&res, NULL, "/unused", "c", SUFFIX_ARG, "=", "#");
+#ifdef ROOTMODE
+#define PROJ "p"
+#define USRSUB "/usr"
 #else
-    e = econf_readConfigWithCallback(&res, NULL, "/unused", "c", SUFFIX_ARG, "=", "#", the_callback, CBDATA);
+#define PROJ NULL
+#define USRSUB "/unused"
+#endif
+#if ENTRY == 4
+    e = econf_readConfig(&res, PROJ, USRSUB, "c", SUFFIX_ARG, "=", "#");
+#else
+    e = econf_readConfigWithCallback(&res, PROJ, USRSUB, "c", SUFFIX_ARG, "=", "#", the_callback, CBDATA);
 #endif
   }
 #endif
